@@ -34,4 +34,55 @@ def c02OpGap (op : BinOp) (s1 s2 t1 t2 : Ty) : Bool :=
       (r == .imag && !(s1.major == .imag || s2.major == .imag))
   | _ => false
 
+/-! ### C02.static_vs_runtime.bity.<built-in> (task C02R4)
+
+  "math built-ins return their null / ill-typed argument unchanged": the region of each of the 15 recorded built-ins as a function of
+  (name, static argument types, run-time argument classes = type and nullness), read off the `value()` / `type()` of
+  blocc/builtin/builtin_<name>.{h,cpp}:
+  * `ceil floor exp log sin sqrt` (header: decimal): a NULL argument of major integer / decimal / complex is returned as it is
+    (`case Type::INTEGER: if (val.isNull()) return val;`): region = null ∧ that major ∧ its type is not plain decimal;
+  * `max min mod` (`type()`: integer iff both static types integer, else decimal; `value()`: integer iff both run-time majors
+    integer, or integer × untyped null; both of level 0) and `pow` (same, no level test, also untyped null × integer): region =
+    static result decimal ∧ run-time result integer;
+  * `b64dec` (header: bytes): a null argument gives a null STRING: region = null argument;
+  * `str`, `substr lsubstr rsubstr` (header: string): a non-null TABLE of strings that reaches the call through an opaque
+    expression is handed back as it is: region = first argument non-null, major string, level ≠ 0.
+  Everything else — any other built-in, any other argument classes — is outside every region. -/
+
+/-- run-time class of an argument: its type and whether it is null -/
+abbrev ArgCls := Ty × Bool
+
+def c02MathUnary : List String := ["ceil", "floor", "exp", "log", "sin", "sqrt"]
+def c02StrTable : List String := ["str", "substr", "lsubstr", "rsubstr"]
+
+def gapMathUnary : List ArgCls → Bool
+  | [(t, null)] => null && (t.major == .int || t.major == .num || t.major == .imag) && t != Ty.num
+  | _ => false
+
+def gapNullArg : List ArgCls → Bool
+  | [(_, null)] => null
+  | _ => false
+
+def gapStrTable : List ArgCls → Bool
+  | (t, null) :: _ => !null && t.major == .str && t.level != 0
+  | _ => false
+
+def gapMathBinary (isPow : Bool) : List Ty → List ArgCls → Bool
+  | [s0, s1], [(t0, _), (t1, _)] =>
+    let staticInt := s0.major == .int && s1.major == .int
+    let staticImag := isPow && (s0.major == .imag || s1.major == .imag)
+    let lvl := isPow || (t0.level == 0 && t1.level == 0)
+    let rtInt := (t0.major == .int && t1.major == .int) || (t0.major == .int && t1.major == .none) ||
+      (isPow && t0.major == .none && t1.major == .int)
+    !staticInt && !staticImag && lvl && rtInt
+  | _, _ => false
+
+def c02BuiltinGap (name : String) (sts : List Ty) (cls : List ArgCls) : Bool :=
+  if c02MathUnary.contains name then gapMathUnary cls
+  else if name == "b64dec" then gapNullArg cls
+  else if c02StrTable.contains name then gapStrTable cls
+  else if name == "max" || name == "min" || name == "mod" then gapMathBinary false sts cls
+  else if name == "pow" then gapMathBinary true sts cls
+  else false
+
 end BlocV.KF
